@@ -1,10 +1,124 @@
 /- driver ops for property C12 (model side of the correspondence) -/
 import Rsa.Core.Wire
+import Rsa.Core.Heap
 
-open Lean Rsa.Wire
+open Lean Rsa.Wire Rsa.Heap
 
 namespace Rsa.Drv.C12
 
-def handle : Handler := fun _op _j => none
+def asDesc (j : Json) : R Desc := do
+  (← asArr j).mapM (fun p => do
+    match (← asArr p) with
+    | [k, v] => pure ((← asStr k), (← asList asStr v))
+    | _ => throw "descriptor entry must be [key, values]")
+
+def asField (j : Json) : R Field := do
+  match j.getObjVal? "a" with
+  | .ok sh => pure (.arr (← asList asNat sh) (← fld j "l" >>= asList asNat))
+  | .error _ => pure (.dict (← fld j "d" >>= asNat))
+
+def asCell (j : Json) : R Cell := do
+  match j.getObjVal? "v" with
+  | .ok v => pure (.val (← asStr v))
+  | .error _ =>
+    match j.getObjVal? "o" with
+    | .ok fs => do
+        let l ← (← asArr fs).mapM (fun p => do
+          match (← asArr p) with
+          | [k, f] => pure ((← asStr k), (← asField f))
+          | _ => throw "attribute must be [name, field]")
+        pure (.obj l)
+    | .error _ => pure (.dict (← fld j "d" >>= asDesc))
+
+def asHeap (j : Json) : R Heap := do
+  let cs ← (← fld j "cells" >>= asArr).mapM (fun p => do
+    match (← asArr p) with
+    | [l, c] => pure ((← asNat l), (← asCell c))
+    | _ => throw "cell must be [loc, cell]")
+  let arr := cs.foldl (fun (a : Array Cell) (p : Nat × Cell) =>
+    if p.1 < a.size then a.set! p.1 p.2 else (a ++ Array.replicate (p.1 - a.size) Cell.free).push p.2) #[]
+  pure { cells := fun l => arr.getD l Cell.free, next := ← fld j "next" >>= asNat }
+
+def asOp (j : Json) : R Op := do
+  match (← fld j "op" >>= asStr) with
+  | "fill" => pure (.fill (← fld j "field" >>= asStr) (← fld j "vals" >>= asList asStr))
+  | "reorder" => pure (.reorder (← fld j "perm" >>= asList asNat))
+  | "sort_by" => pure (.sortBy (← fld j "key" >>= asStr) (← fld j "order" >>= asList asStr)
+                        (← fld j "reindex" >>= asBool))
+  | "append" => pure (.append (← fld j "n" >>= asNat) (← fld j "rows" >>= asList asStr)
+                       (← fld j "desc" >>= asDesc))
+  | "ds_sort_by" => pure (.dsSortBy (← fld j "by" >>= asStr))
+  | o => throw s!"unknown in-place operation {o}"
+
+def ofDesc (d : Desc) : Json :=
+  ofList (fun (p : String × List Val) => Json.arr #[Json.str p.1, ofList Json.str p.2]) d
+
+def ofContent (c : List (String × Content)) : Json :=
+  ofList (fun (p : String × Content) =>
+    match p.2 with
+    | .arr shape vals => Json.arr #[Json.str p.1, Json.str "a", ofList ofNat shape, ofList Json.str vals]
+    | .dict d => Json.arr #[Json.str p.1, Json.str "d", ofDesc d]) c
+
+/-- which writable attributes of the roots `as` can be read through the roots `bs` -/
+def sharedReport (h : Heap) (side : String) (as bs : List Loc) : List Json :=
+  let rb := reachSide h bs
+  as.flatMap (fun a =>
+    (if rb.contains a then [Json.arr #[Json.str side, ofNat a, Json.str "<object>"]] else []) ++
+    (fieldsOf (h.cells a)).filterMap (fun p =>
+      if (fieldWr p).any (fun l => rb.contains l) then
+        some (Json.arr #[Json.str side, ofNat a, Json.str p.1])
+      else none))
+
+/-- run a history on an observed heap; dump every root after every step -/
+def runOp (j : Json) : R Json := do
+  let h ← asHeap j
+  let src ← fld j "src" >>= asList asNat
+  let res ← fld j "res" >>= asList asNat
+  let hist ← (← fld j "hist" >>= asArr).mapM (fun s => do
+    pure ((← fld s "root" >>= asNat), (← asOp s)))
+  let roots := src ++ res
+  let dumpAll (h : Heap) : Json := ofList (fun r => ofContent (content h r)) roots
+  let (_, trace) := hist.foldl (fun (acc : Heap × List Json) (s : Loc × Op) =>
+    let h' := step acc.1 s.1 s.2
+    (h', acc.2 ++ [dumpAll h'])) (h, [dumpAll h])
+  pure (obj [("sep", Json.bool (sepB h src res)),
+             ("shared", Json.arr (sharedReport h "src" src res ++ sharedReport h "res" res src).toArray),
+             ("trace", Json.arr trace.toArray)])
+
+def instrName : Instr → String
+  | .newArr f _ _ => "new:" ++ f
+  | .newDict f _ => "new:" ++ f
+  | .setDict f _ => "set:" ++ f.name
+  | .setEls f _ => "els:" ++ f
+
+/-- a small RDMs-like and dataset-like object, only to enumerate what `compile` emits -/
+def probeHeap : Heap :=
+  { cells := fun l => match l with
+      | 0 => .obj [("dissimilarities", .arr [1, 3] [1, 2, 3]), ("descriptors", .dict 4),
+                   ("rdm_descriptors", .dict 5), ("pattern_descriptors", .dict 6)]
+      | 1 => .val "1.0" | 2 => .val "2.0" | 3 => .val "3.0"
+      | 4 => .dict []
+      | 5 => .dict [("index", ["0"])]
+      | 6 => .dict [("cond", ["b", "a", "c"]), ("index", ["0", "1", "2"])]
+      | 7 => .obj [("measurements", .arr [2, 1] [8, 9]), ("obs_descriptors", .dict 10)]
+      | 8 => .val "1.0" | 9 => .val "2.0"
+      | 10 => .dict [("conds", ["b", "a"])]
+      | _ => .free,
+    next := 11 }
+
+/-- the write set of every modelled in-place operation, as the instruction list says -/
+def writesOp (_ : Json) : R Json := do
+  let names (a : Loc) (op : Op) : Json := ofList Json.str ((compile probeHeap a op).map instrName)
+  pure (obj [("reorder", names 0 (.reorder [1, 0, 2])),
+             ("sort_by", names 0 (.sortBy "cond" ["a", "b", "c"] true)),
+             ("append", names 0 (.append 1 ["4.0", "5.0", "6.0"] [("index", ["0"])])),
+             ("ds_sort_by", names 7 (.dsSortBy "conds")),
+             ("fill", names 0 (.fill "dissimilarities" ["0.0", "0.0", "0.0"]))])
+
+def handle : Handler := fun op j =>
+  match op with
+  | "c12.run" => some (runOp j)
+  | "c12.writes" => some (writesOp j)
+  | _ => none
 
 end Rsa.Drv.C12
